@@ -27,7 +27,23 @@
    Reads happen between any two writes. In the code as it is every accessor is a function of the
    database, so a read changes nothing; MemoFamilies / MemoPurged model a reader-level memo (a
    cache in the reader layer on top of the database, per lookup family) - a memo that is not
-   dropped by Store / RevertHead is the class of defect the Replace scenario exists for. *)
+   dropped by Store / RevertHead is the class of defect the Replace scenario exists for.
+
+   REPRESENTATION of stored values ("shape classes"). Every slice / map / byte-string / pointer field
+   of every stored Go type (FieldTable: one row per field, named by its Go path) is part of the
+   abstract content of a record: a container is nil, empty, a singleton or has many elements; a
+   pointer is nil, points to the zero value or to a non-zero one. The encoder turns a shape into a
+   wire form (WireOf: CBOR null / empty array / absent key / nothing at all for the block-level lists,
+   which the blob represents by their offsets only), the decoder turns the wire form into the shape it
+   leaves in a FRESH destination (Decoded). What an accessor returns has the same content and, per
+   field, the NORMAL FORM of the stored shape (Norm, the `norm` column of the table - "exact" for all
+   but the fields whose encoder writes nil and empty identically): ShapePreserved. Re-encoding what
+   was returned gives the stored bytes: ReencodeIdentity. With VaryShapes a Store varies one field of
+   one object at a time over all its shape classes (plus the all-empty and the all-nil object);
+   CodecSlip switches on the plausible slips of a codec family ("empty->nil": the decoder maps an
+   empty container to nil, "nil->empty" the converse, "nilptr->zero" / "zeroptr->nil" for pointers,
+   "omitempty": the encoder drops empty containers) as self-tests. Blocks also DECLARE classes
+   (Cairo-0 / Sierra with its compiled class), stored by class hash, removed by RevertHead. *)
 EXTENDS Integers, Sequences, FiniteSets, TLC
 
 CONSTANTS MaxBlocks,      \* chain length bound
@@ -45,11 +61,17 @@ CONSTANTS MaxBlocks,      \* chain length bound
           MaxReverts,     \* RevertHead calls per behaviour (0 = append-only chain)
           (* reader-level memos: {} = the code as it is (every accessor reads the database) *)
           MemoFamilies,   \* subset of Families: lookups the reader layer remembers once answered
-          MemoPurged      \* TRUE = Store / RevertHead drop every memo; FALSE = a memo outlives the write
+          MemoPurged,     \* TRUE = Store / RevertHead drop every memo; FALSE = a memo outlives the write
+          (* representation of stored values *)
+          FieldTable,     \* per-field normal forms: set of [root, field, kind, codec, norm, proj] (MCBlockBlob!MCFieldTable)
+          VaryShapes,     \* FALSE = every stored object is fully populated; TRUE = Store varies one field of one object at a time
+          MaxClasses,     \* classes a block declares: 0..MaxClasses
+          CodecSlip,      \* "none" = the code as it is | "empty->nil" | "nil->empty" | "nilptr->zero" | "zeroptr->nil" | "omitempty"
+          SlipCodecs      \* the codec families (column `codec`) the slip applies to
 
-VARIABLES chain,   \* ghost: what was handed to Store and is stored NOW, per block [txs, rcs, su, l1, hdr, ver]
-          db,      \* the database: [height, blobs, headers, byHash, txIndex, sus, l1]
-          dead,    \* ghost: [blocks: hashes of reverted blocks, txs: transactions of reverted blocks]
+VARIABLES chain,   \* ghost: what was handed to Store and is stored NOW, per block [txs, rcs, su, l1, hdr, ver, lists, classes]
+          db,      \* the database: [height, blobs, headers, byHash, txIndex, sus, l1, classes]
+          dead,    \* ghost: [blocks: hashes of reverted blocks, txs: transactions of reverted blocks, classes: their class hashes]
           ver,     \* number of Store calls so far = version of the next block (ver - Len(chain) = reverts so far)
           memo,    \* reader-level memos, per family a set of <<key, answer>> (always empty when MemoFamilies = {})
           act, res
@@ -72,28 +94,101 @@ Found(v) == [k |-> "found", v |-> v]
    inclusion: the same transaction re-included gets another receipt. *)
 BlockHash(v) == <<"block", v>>
 TxHash(v, i) == <<"tx", v, i>>
-Tx(v, i, kind) == [sort |-> "tx", hash |-> TxHash(v, i), kind |-> kind]
-Rc(h, v, nev, rev) == [sort |-> "rc", hash |-> h, events |-> [e \in 1..nev |-> <<"ev", h, v, e>>],
-                       rev |-> rev, reason |-> IF rev THEN <<"reason", h, v>> ELSE <<>>,
-                       rest |-> <<"fee-resources-messages", h, v>>]
+ClassHash(v, j) == <<"class", v, j>>
+Tx(v, i, kind, sh) == [sort |-> "tx", hash |-> TxHash(v, i), kind |-> kind, shape |-> sh]
+Rc(h, v, nev, rev, sh) == [sort |-> "rc", hash |-> h, events |-> [e \in 1..nev |-> <<"ev", h, v, e>>],
+                           rev |-> rev, reason |-> IF rev THEN <<"reason", h, v>> ELSE <<>>,
+                           rest |-> <<"fee-resources-messages", h, v>>, shape |-> sh]
+Class(v, j, kind, sh) == [sort |-> "class", hash |-> ClassHash(v, j), kind |-> kind, shape |-> sh]
 Msg(tx) == <<"msg", tx.hash[2], tx.hash[3]>>       \* the message hash is a function of the L1 handler
 Fresh == [sort |-> "fresh"]
 
+--------------------------------------------------------------------------------
+(* representation: shape classes, wire forms, the per-field normal forms *)
+ContainerShapes == {"nil", "empty", "one", "many"}
+PointerShapes == {"nil", "zero", "nonzero"}
+ShapesOf(kind) == IF kind = "ptr" THEN PointerShapes ELSE ContainerShapes
+Populated(kind) == IF kind = "ptr" THEN "nonzero" ELSE "many"
+Emptied(kind) == IF kind = "ptr" THEN "zero" ELSE "empty"
+
+TxRoot(kind) ==
+  CASE kind \in {"invoke0", "invoke1", "invoke3"} -> "*core.InvokeTransaction"
+    [] kind \in {"declare1", "declare2", "declare3"} -> "*core.DeclareTransaction"
+    [] kind \in {"deployaccount1", "deployaccount3"} -> "*core.DeployAccountTransaction"
+    [] kind = "l1handler" -> "*core.L1HandlerTransaction"
+    [] kind = "deploy" -> "*core.DeployTransaction"
+ClassKinds == {"sierra", "cairo0"}
+ClassRoot(kind) == IF kind = "sierra" THEN "*core.SierraClass" ELSE "*core.DeprecatedCairoClass"
+RootOf(x) ==
+  CASE x.sort = "tx" -> TxRoot(x.kind) [] x.sort = "rc" -> "*core.TransactionReceipt"
+    [] x.sort = "hdr" -> "*core.Header" [] x.sort = "su" -> "*core.StateUpdate"
+    [] x.sort = "class" -> ClassRoot(x.kind)
+
+(* the table as functions (constant-level definitions: evaluated once). Identity fields (norm = "key": a
+   transaction's / a block's own hash) are never absent: not shape fields *)
+Roots == {r.root : r \in FieldTable}
+RowFn == [root \in Roots |-> [f \in {r.field : r \in {q \in FieldTable : q.root = root}} |->
+                               CHOOSE r \in FieldTable : r.root = root /\ r.field = f]]
+FieldsFn == [root \in Roots |-> {f \in DOMAIN RowFn[root] : RowFn[root][f].norm # "key"}]
+Row(root, f) == RowFn[root][f]
+ListRow(f) == RowFn["*core.Block"][f]
+
+Slipped(row) == CodecSlip # "none" /\ row.codec \in SlipCodecs
+Omits(row) == row.codec = "cbor-omitempty" \/ (CodecSlip = "omitempty" /\ Slipped(row) /\ row.kind # "ptr")
+
+(* what the encoder writes for a field of shape s *)
+WireOf(row, s) ==
+  CASE row.codec = "blob" -> IF s \in {"nil", "empty"} THEN "none" ELSE s   \* offsets + elements only
+    [] Omits(row) /\ s \in {"nil", "empty"} -> "absent"                       \* the key is not written
+    [] s = "nil" -> "null"
+    [] OTHER -> s
+(* what the decoder leaves in a FRESH destination (a record read from the database is always decoded into one) *)
+Decoded(row, w) ==
+  CASE w = "none" -> "empty"                                                   \* LazySlice.All: make([]T, 0)
+    [] w = "absent" -> "nil"
+    [] w = "null" -> IF row.kind = "ptr" THEN (IF CodecSlip = "nilptr->zero" /\ Slipped(row) THEN "zero" ELSE "nil")
+                     ELSE (IF CodecSlip = "nil->empty" /\ Slipped(row) THEN "empty" ELSE "nil")
+    [] w = "empty" -> IF CodecSlip = "empty->nil" /\ Slipped(row) THEN "nil" ELSE "empty"
+    [] w = "zero" -> IF CodecSlip = "zeroptr->nil" /\ Slipped(row) THEN "nil" ELSE "zero"
+    [] OTHER -> w
+(* the contract: the normal form of shape s of that field *)
+Norm(row, s) ==
+  CASE row.norm = "empty=nil" /\ s = "empty" -> "nil"
+    [] row.norm = "nil=empty" /\ s = "nil" -> "empty"
+    [] OTHER -> s
+
+(* shape vectors: field -> shape class. Without VaryShapes every object is fully populated and the
+   vector is the constant "populated" (all wire forms and normal forms of a populated field are itself). *)
+PopVecFn == [root \in Roots |-> [f \in FieldsFn[root] |-> Populated(RowFn[root][f].kind)]]
+AllVecFn == [root \in Roots |-> [which \in {"nil", "empty"} |->
+               [f \in FieldsFn[root] |-> IF which = "nil" THEN "nil" ELSE Emptied(RowFn[root][f].kind)]]]
+VectorsFn == [root \in Roots |->
+                UNION {{[PopVecFn[root] EXCEPT ![f] = s] : s \in ShapesOf(RowFn[root][f].kind)} : f \in FieldsFn[root]}
+                \cup {AllVecFn[root]["empty"], AllVecFn[root]["nil"]}]
+PopVec(root) == IF VaryShapes THEN PopVecFn[root] ELSE "populated"
+Vectors(root) == IF VaryShapes THEN VectorsFn[root] ELSE {"populated"}
+MapVec(root, sh, F(_, _)) == IF ~VaryShapes THEN sh ELSE [f \in DOMAIN sh |-> F(RowFn[root][f], sh[f])]
+WireItem(x) == [x EXCEPT !.shape = MapVec(RootOf(x), @, WireOf)]
+UnwireItem(x) == [x EXCEPT !.shape = MapVec(RootOf(x), @, Decoded)]
+Want(x) == [x EXCEPT !.shape = MapVec(RootOf(x), @, Norm)]        \* what an accessor returns for the stored x
+WantAll(xs) == [i \in 1..Len(xs) |-> Want(xs[i])]
+ProjVec(root, sh, p) == IF ~VaryShapes THEN sh ELSE [f \in {g \in DOMAIN sh : RowFn[root][g].proj = p} |-> sh[f]]
+
 (* the three projections, as functions of the full item *)
 HashProj(tx) == tx.hash
-EventsProj(rc) == [events |-> rc.events, hash |-> rc.hash]
+EventsProj(rc) == [events |-> rc.events, hash |-> rc.hash, shape |-> ProjVec("*core.TransactionReceipt", rc.shape, "events")]
 StatusProj(rc) == [rev |-> rc.rev, reason |-> rc.reason]
 
 --------------------------------------------------------------------------------
 (* encoding: item -> cells; decoding a byte range *)
-Enc(item, len) == [j \in 1..len |-> [item |-> item, pos |-> j, len |-> len]]
+Enc(item, len) == [j \in 1..len |-> [item |-> WireItem(item), pos |-> j, len |-> len]]
 
 DecodeAs(sort, cells) ==
   IF /\ Len(cells) >= 1
      /\ cells[1].pos = 1 /\ cells[1].len = Len(cells)
      /\ \A j \in 1..Len(cells) : cells[j].item = cells[1].item /\ cells[j].pos = j
      /\ cells[1].item.sort = sort
-  THEN Found(cells[1].item) ELSE Error
+  THEN Found(UnwireItem(cells[1].item)) ELSE Error
 
 Slice(data, s, e) == IF e <= s THEN <<>> ELSE SubSeq(data, s + 1, e)      \* bytes [s, e), 0-based
 
@@ -103,11 +198,13 @@ RECURSIVE Flat(_, _, _)
 Flat(items, lens, k) == IF k = 0 THEN <<>> ELSE Flat(items, lens, k - 1) \o Enc(items[k], lens[k])
 
 (* core.NewBlockTransactions: indexed.Write(transactions) then indexed.Write(receipts) on ONE buffer *)
-BuildBlob(txs, rcs, tl, rl) ==
+BuildBlob(txs, rcs, tl, rl, lists) ==
   LET txBytes == Sum(tl, Len(txs)) IN
   [idx |-> [txs |-> [i \in 1..Len(txs) |-> Sum(tl, i - 1)],
             rcs |-> [i \in 1..Len(rcs) |-> txBytes + Sum(rl, i - 1)]],
-   data |-> Flat(txs, tl, Len(txs)) \o Flat(rcs, rl, Len(rcs))]
+   data |-> Flat(txs, tl, Len(txs)) \o Flat(rcs, rl, Len(rcs)),
+   (* the lists themselves are not written: a nil list and an empty one leave the same blob *)
+   lists |-> [txs |-> WireOf(ListRow(".Transactions"), lists.txs), rcs |-> WireOf(ListRow(".Receipts"), lists.rcs)]]
 
 (* indexed.LazySlice.Get *)
 LazyGet(sort, idx, data, i) ==
@@ -151,7 +248,7 @@ AllRcs(n) == IF ~Has(n) THEN NotFound ELSE All("rc", Blob(n).idx.rcs, RcSection(
 TxHashes(n) == Map(AllTxs(n), HashProj)                          \* transactionHashProjection
 TxEvents(n) == Map(AllRcs(n), EventsProj)                        \* receiptEventsProjection
 
-HeaderByNumber(n) == MemoGet("hdr", n, IF n >= 0 /\ n < Len(db.headers) /\ n <= db.height THEN Found(db.headers[n + 1]) ELSE NotFound)
+HeaderByNumber(n) == MemoGet("hdr", n, IF n >= 0 /\ n < Len(db.headers) /\ n <= db.height THEN Found(UnwireItem(db.headers[n + 1])) ELSE NotFound)
 TxCount(n) == Map1(HeaderByNumber(n), LAMBDA h : h.count)       \* headerTransactionCountProjection
 NumberByHash(h) == MemoGet("num", h, IF \E p \in db.byHash : p[1] = h
                                      THEN Found((CHOOSE p \in db.byHash : p[1] = h)[2]) ELSE NotFound)
@@ -173,9 +270,17 @@ ReceiptByHash(h) ==
        IF r.k # "found" THEN r ELSE IF hd.k # "found" THEN hd
        ELSE Found([rc |-> r.v, blockHash |-> hd.v.hash, number |-> l.v[2]])
 
-SUByNumber(n) == MemoGet("su", n, IF n >= 0 /\ n < Len(db.sus) /\ n <= db.height THEN Found(db.sus[n + 1]) ELSE NotFound)
+SUByNumber(n) == MemoGet("su", n, IF n >= 0 /\ n < Len(db.sus) /\ n <= db.height THEN Found(UnwireItem(db.sus[n + 1])) ELSE NotFound)
 SUByHash(h) == LET r == NumberByHash(h) IN IF r.k # "found" THEN r ELSE SUByNumber(r.v)
 L1Lookup(m) == MemoGet("l1", m, IF \E p \in db.l1 : p[1] = m THEN Found((CHOOSE p \in db.l1 : p[1] = m)[2]) ELSE NotFound)
+(* declared classes: core.GetClass / state.GetClass / StateReader.Class - the class and the block that declared it *)
+ClassByHash(h) == IF \E c \in db.classes : c[1] = h
+                  THEN LET c == CHOOSE c \in db.classes : c[1] = h IN Found([at |-> c[2], class |-> UnwireItem(c[3])])
+                  ELSE NotFound
+(* the shape of the lists AllTxs / AllRcs / BlockByNumber return (their content is the sequence of items) *)
+ListShape(n) == IF ~Has(n) THEN NotFound
+                ELSE Found([txs |-> Decoded(ListRow(".Transactions"), Blob(n).lists.txs),
+                            rcs |-> Decoded(ListRow(".Receipts"), Blob(n).lists.rcs)])
 
 --------------------------------------------------------------------------------
 (* ghost bookkeeping *)
@@ -196,25 +301,33 @@ Sources(size) == {s \in Seqs(Orphans \cup {Fresh}, size) :
                     \A i, j \in 1..size : (i # j /\ s[i] # Fresh) => s[i] # s[j]}
 Purge == IF MemoPurged THEN NoMemo ELSE memo
 
-Store(size, kinds, evs, revs, tl, rl, src) ==
+ListOf(size, sh) == IF size = 0 THEN sh ELSE IF size = 1 THEN "one" ELSE "many"
+
+(* shp: the representation chosen for this block's objects: [txs, rcs: one vector per position; hdr, su:
+   a vector; lists: the shape of an EMPTY block's transaction / receipt lists; classes: <<kind, vector>>s] *)
+Store(size, kinds, evs, revs, tl, rl, src, shp) ==
   LET n == Len(chain)
-      txs == [i \in 1..size |-> IF src[i] = Fresh THEN Tx(ver, i - 1, kinds[i]) ELSE src[i]]
-      rcs == [i \in 1..size |-> Rc(txs[i].hash, ver, evs[i], revs[i])]
+      txs == [i \in 1..size |-> IF src[i] = Fresh THEN Tx(ver, i - 1, kinds[i], shp.txs[i]) ELSE src[i]]
+      rcs == [i \in 1..size |-> Rc(txs[i].hash, ver, evs[i], revs[i], shp.rcs[i])]
       l1 == {<<Msg(txs[i]), txs[i].hash>> : i \in {j \in 1..size : txs[j].kind = "l1handler"}}
-      hdr == [number |-> n, hash |-> BlockHash(ver), count |-> size]
-      su == [blockHash |-> BlockHash(ver), diff |-> <<"diff", ver>>]
+      hdr == [sort |-> "hdr", number |-> n, hash |-> BlockHash(ver), count |-> size, shape |-> shp.hdr]
+      su == [sort |-> "su", blockHash |-> BlockHash(ver), diff |-> <<"diff", ver>>, shape |-> shp.su]
+      lists == [txs |-> ListOf(size, shp.lists), rcs |-> ListOf(size, shp.lists)]
+      classes == [j \in 1..Len(shp.classes) |-> Class(ver, j - 1, shp.classes[j][1], shp.classes[j][2])]
       hashes == {txs[i].hash : i \in 1..size}
   IN
   /\ n < MaxBlocks
-  /\ chain' = Append(chain, [txs |-> txs, rcs |-> rcs, su |-> su, l1 |-> l1, hdr |-> hdr, ver |-> ver])
+  /\ chain' = Append(chain, [txs |-> txs, rcs |-> rcs, su |-> su, l1 |-> l1, hdr |-> hdr, ver |-> ver,
+                             lists |-> lists, classes |-> classes])
   /\ db' = [height |-> n,
-            blobs |-> Append(db.blobs, BuildBlob(txs, rcs, tl, rl)),
-            headers |-> Append(db.headers, hdr),
+            blobs |-> Append(db.blobs, BuildBlob(txs, rcs, tl, rl, lists)),
+            headers |-> Append(db.headers, WireItem(hdr)),
             byHash |-> db.byHash \cup {<<BlockHash(ver), n>>},
             txIndex |-> {e \in db.txIndex : e[1] \notin hashes}
                         \cup {<<txs[i].hash, n, IF HashIndexExact THEN i - 1 ELSE i>> : i \in 1..size},
-            sus |-> Append(db.sus, su),
-            l1 |-> {p \in db.l1 : \A q \in l1 : q[1] # p[1]} \cup l1]
+            sus |-> Append(db.sus, WireItem(su)),
+            l1 |-> {p \in db.l1 : \A q \in l1 : q[1] # p[1]} \cup l1,
+            classes |-> db.classes \cup {<<classes[j].hash, n, WireItem(classes[j])>> : j \in 1..Len(classes)}]
   /\ ver' = ver + 1
   /\ memo' = Purge
   /\ act' = [name |-> "Store", size |-> size, kinds |-> [i \in 1..size |-> txs[i].kind], evs |-> evs, revs |-> revs,
@@ -233,7 +346,8 @@ Revert ==
   /\ Len(chain) > 0 /\ Reverts < MaxReverts
   /\ t.k = "found"
   /\ chain' = SubSeq(chain, 1, n)
-  /\ dead' = [blocks |-> dead.blocks \cup {db.headers[n + 1].hash}, txs |-> dead.txs \cup Range(chain[n + 1].txs)]
+  /\ dead' = [blocks |-> dead.blocks \cup {db.headers[n + 1].hash}, txs |-> dead.txs \cup Range(chain[n + 1].txs),
+              classes |-> dead.classes \cup {c[1] : c \in {d \in db.classes : d[2] = n}}]
   /\ db' = [height |-> n - 1,
             blobs |-> SubSeq(db.blobs, 1, n),
             headers |-> SubSeq(db.headers, 1, n),
@@ -241,7 +355,8 @@ Revert ==
             txIndex |-> IF RevertDropsIndexes THEN {e \in db.txIndex : \A u \in gone : u.hash # e[1]} ELSE db.txIndex,
             sus |-> SubSeq(db.sus, 1, n),
             l1 |-> IF RevertDropsIndexes
-                   THEN {p \in db.l1 : \A u \in gone : ~(u.kind = "l1handler" /\ Msg(u) = p[1])} ELSE db.l1]
+                   THEN {p \in db.l1 : \A u \in gone : ~(u.kind = "l1handler" /\ Msg(u) = p[1])} ELSE db.l1,
+            classes |-> {c \in db.classes : c[2] # n}]          \* the classes the head declared
   /\ memo' = Purge
   /\ act' = [name |-> "Revert", number |-> n]
   /\ res' = [k |-> "ok"]
@@ -273,21 +388,42 @@ Restart(graceful) ==
   /\ memo' = NoMemo
   /\ UNCHANGED <<chain, db, dead, ver>>
 
-EmptyDB == [height |-> -1, blobs |-> <<>>, headers |-> <<>>, byHash |-> {}, txIndex |-> {}, sus |-> <<>>, l1 |-> {}]
+EmptyDB == [height |-> -1, blobs |-> <<>>, headers |-> <<>>, byHash |-> {}, txIndex |-> {}, sus |-> <<>>, l1 |-> {}, classes |-> {}]
+NoDead == [blocks |-> {}, txs |-> {}, classes |-> {}]
 
 Init ==
   /\ chain = <<>>
   /\ db = EmptyDB
-  /\ dead = [blocks |-> {}, txs |-> {}]
+  /\ dead = NoDead
   /\ ver = 0
   /\ memo = NoMemo
   /\ act = [name |-> "Init"] /\ res = [k |-> "none"]
+
+(* the representations a Store may choose. Without VaryShapes: every object fully populated (the lists
+   of an empty block empty), 0..MaxClasses populated classes. With VaryShapes: ONE object of the block
+   takes any of its vectors (one field over all its shape classes, all-empty, all-nil) - a transaction,
+   a receipt, the header, the state update, a declared class of either kind, or the lists of an empty
+   block (nil / empty) - and everything else is populated. *)
+PopShapes(size, kinds, ncls) ==
+  [txs |-> [i \in 1..size |-> PopVec(TxRoot(kinds[i]))], rcs |-> [i \in 1..size |-> PopVec("*core.TransactionReceipt")],
+   hdr |-> PopVec("*core.Header"), su |-> PopVec("*core.StateUpdate"), lists |-> "empty",
+   classes |-> [j \in 1..ncls |-> <<IF j % 2 = 1 THEN "sierra" ELSE "cairo0", PopVec(ClassRoot(IF j % 2 = 1 THEN "sierra" ELSE "cairo0"))>>]]
+ShapeChoices(size, kinds) ==
+  IF ~VaryShapes THEN {PopShapes(size, kinds, c) : c \in 0..MaxClasses}
+  ELSE LET pop == PopShapes(size, kinds, 0) IN
+       UNION {{[pop EXCEPT !.txs[i] = v] : v \in Vectors(TxRoot(kinds[i]))} : i \in 1..size}
+       \cup UNION {{[pop EXCEPT !.rcs[i] = v] : v \in Vectors("*core.TransactionReceipt")} : i \in 1..size}
+       \cup {[pop EXCEPT !.hdr = v] : v \in Vectors("*core.Header")}
+       \cup {[pop EXCEPT !.su = v] : v \in Vectors("*core.StateUpdate")}
+       \cup {[pop EXCEPT !.lists = s] : s \in IF size = 0 THEN {"nil", "empty"} ELSE {"empty"}}
+       \cup (IF MaxClasses = 0 THEN {} ELSE UNION {{[pop EXCEPT !.classes = <<<<k, v>>>>] : v \in Vectors(ClassRoot(k))} : k \in ClassKinds})
 
 StoreAny ==
   \E size \in 0..MaxSize :
     \E kinds \in Seqs(Kinds, size), evs \in Seqs(EvCounts, size), revs \in Seqs(Revs, size),
        tl \in Seqs(Lens, size), rl \in Seqs(Lens, size), src \in Sources(size) :
-      Store(size, kinds, evs, revs, tl, rl, src)
+      \E shp \in ShapeChoices(size, kinds) :
+        Store(size, kinds, evs, revs, tl, rl, src, shp)
 ReadAny == \E fam \in MemoFamilies : \E key \in Known(fam) : Read(fam, key)
 
 Next == StoreAny \/ Revert \/ ReadAny
@@ -304,12 +440,12 @@ BHash(n) == chain[n + 1].hdr.hash
 
 ItemAccessors ==
   \A n \in Stored : \A i \in 0..(Size(n) - 1) :
-    /\ TxByIndex(n, i) = Found(chain[n + 1].txs[i + 1])
-    /\ RcByIndex(n, i) = Found(chain[n + 1].rcs[i + 1])
-    /\ TxAndRcByIndex(n, i) = Found(<<chain[n + 1].txs[i + 1], chain[n + 1].rcs[i + 1]>>)
-    /\ TxByHash(HashOf(n, i)) = Found(chain[n + 1].txs[i + 1])
+    /\ TxByIndex(n, i) = Found(Want(chain[n + 1].txs[i + 1]))
+    /\ RcByIndex(n, i) = Found(Want(chain[n + 1].rcs[i + 1]))
+    /\ TxAndRcByIndex(n, i) = Found(<<Want(chain[n + 1].txs[i + 1]), Want(chain[n + 1].rcs[i + 1])>>)
+    /\ TxByHash(HashOf(n, i)) = Found(Want(chain[n + 1].txs[i + 1]))
     /\ LocationByHash(HashOf(n, i)) = Found(<<n, i>>)
-    /\ ReceiptByHash(HashOf(n, i)) = Found([rc |-> chain[n + 1].rcs[i + 1], blockHash |-> BHash(n), number |-> n])
+    /\ ReceiptByHash(HashOf(n, i)) = Found([rc |-> Want(chain[n + 1].rcs[i + 1]), blockHash |-> BHash(n), number |-> n])
 
 OutOfRange ==
   /\ \A n \in Stored : /\ TxByIndex(n, Size(n)) = NotFound /\ RcByIndex(n, Size(n)) = NotFound
@@ -323,17 +459,19 @@ OutOfRange ==
 
 BlockAccessors ==
   \A n \in Stored :
-    /\ AllTxs(n) = Found(chain[n + 1].txs)
-    /\ AllRcs(n) = Found(chain[n + 1].rcs)
+    /\ AllTxs(n) = Found(WantAll(chain[n + 1].txs))
+    /\ AllRcs(n) = Found(WantAll(chain[n + 1].rcs))
     /\ TxCount(n) = Found(Size(n))
-    /\ HeaderByNumber(n) = Found(chain[n + 1].hdr)
-    /\ HeaderByHash(BHash(n)) = Found(chain[n + 1].hdr)
+    /\ HeaderByNumber(n) = Found(Want(chain[n + 1].hdr))
+    /\ HeaderByHash(BHash(n)) = Found(Want(chain[n + 1].hdr))
     /\ NumberByHash(BHash(n)) = Found(n)
-    /\ BlockByNumber(n) = Found([header |-> chain[n + 1].hdr, txs |-> chain[n + 1].txs, rcs |-> chain[n + 1].rcs])
+    /\ BlockByNumber(n) = Found([header |-> Want(chain[n + 1].hdr), txs |-> WantAll(chain[n + 1].txs), rcs |-> WantAll(chain[n + 1].rcs)])
     /\ BlockByHash(BHash(n)) = BlockByNumber(n)
-    /\ SUByNumber(n) = Found(chain[n + 1].su)
+    /\ SUByNumber(n) = Found(Want(chain[n + 1].su))
     /\ SUByHash(BHash(n)) = SUByNumber(n)
     /\ \A p \in chain[n + 1].l1 : L1Lookup(p[1]) = Found(p[2])
+    /\ \A j \in 1..Len(chain[n + 1].classes) :
+         ClassByHash(chain[n + 1].classes[j].hash) = Found([at |-> n, class |-> Want(chain[n + 1].classes[j])])
 
 (* not found exactly for what is not stored now: the hashes a reorg dropped *)
 Gone ==
@@ -342,12 +480,13 @@ Gone ==
                          /\ (t.kind = "l1handler" => L1Lookup(Msg(t)) = NotFound)
   /\ \A h \in dead.blocks : /\ NumberByHash(h) = NotFound /\ HeaderByHash(h) = NotFound
                              /\ BlockByHash(h) = NotFound /\ SUByHash(h) = NotFound
+  /\ \A h \in dead.classes : ClassByHash(h) = NotFound
 
 (* the partial decoders agree with the full decoder on every record *)
 ProjectionsAgree ==
   \A n \in Stored :
     /\ TxHashes(n) = Found([i \in 1..Size(n) |-> HashOf(n, i - 1)])
-    /\ TxEvents(n) = Found([i \in 1..Size(n) |-> EventsProj(chain[n + 1].rcs[i])])
+    /\ TxEvents(n) = Found([i \in 1..Size(n) |-> EventsProj(Want(chain[n + 1].rcs[i]))])
     /\ \A i \in 0..(Size(n) - 1) : StatusByIndex(n, i) = Found(StatusProj(chain[n + 1].rcs[i + 1]))
 
 (* the database holds index entries for exactly what is stored now (Store;Revert leaves nothing) *)
@@ -355,6 +494,39 @@ IndexesExact ==
   /\ {e[1] : e \in db.txIndex} = {t.hash : t \in InChain}
   /\ {p[1] : p \in db.byHash} = {BHash(n) : n \in Stored}
   /\ {p[1] : p \in db.l1} = {Msg(t) : t \in {u \in InChain : u.kind = "l1handler"}}
+  /\ {c[1] : c \in db.classes} = UNION {{chain[n + 1].classes[j].hash : j \in 1..Len(chain[n + 1].classes)} : n \in Stored}
+
+(* REPRESENTATION: what an accessor returns has, field by field, the normal form of the shape that was
+   stored - through every access path: the full decoders, the events projection, the lists *)
+StoredObjects(n) == Range(chain[n + 1].txs) \cup Range(chain[n + 1].rcs) \cup {chain[n + 1].hdr, chain[n + 1].su}
+                    \cup Range(chain[n + 1].classes)
+Returned(n, x) ==         \* the same object through its primary accessor
+  CASE x.sort = "tx" -> TxByHash(x.hash)
+    [] x.sort = "rc" -> Map1(ReceiptByHash(x.hash), LAMBDA r : r.rc)
+    [] x.sort = "hdr" -> HeaderByNumber(n)
+    [] x.sort = "su" -> SUByNumber(n)
+    [] x.sort = "class" -> Map1(ClassByHash(x.hash), LAMBDA c : c.class)
+ShapePreserved ==
+  \A n \in Stored :
+    /\ \A x \in StoredObjects(n) :
+         /\ Returned(n, x).k = "found"
+         /\ Returned(n, x).v.shape = MapVec(RootOf(x), x.shape, Norm)
+    /\ \A i \in 1..Size(n) : /\ AllTxs(n).v[i].shape = MapVec(RootOf(chain[n + 1].txs[i]), chain[n + 1].txs[i].shape, Norm)
+                              /\ AllRcs(n).v[i].shape = MapVec("*core.TransactionReceipt", chain[n + 1].rcs[i].shape, Norm)
+                              /\ TxEvents(n).v[i].shape = ProjVec("*core.TransactionReceipt", MapVec("*core.TransactionReceipt", chain[n + 1].rcs[i].shape, Norm), "events")
+    /\ ListShape(n) = Found([txs |-> Norm(ListRow(".Transactions"), chain[n + 1].lists.txs),
+                             rcs |-> Norm(ListRow(".Receipts"), chain[n + 1].lists.rcs)])
+
+(* the codec rules agree with the table's normal forms, for EVERY field and shape class (state
+   independent): decode(encode(s)) = Norm(s), the normal form is a fixed point, and re-encoding what
+   the decoder produced gives the same bytes *)
+AllRows == {r \in FieldTable : r.norm # "key"}
+CodecAgreesWithTable ==
+  \A r \in AllRows : \A s \in ShapesOf(r.kind) :
+    /\ Decoded(r, WireOf(r, s)) = Norm(r, s)
+    /\ Norm(r, Norm(r, s)) = Norm(r, s)
+ReencodeIdentity ==
+  \A r \in AllRows : \A s \in ShapesOf(r.kind) : WireOf(r, Decoded(r, WireOf(r, s))) = WireOf(r, s)
 
 RestartIsNoOp == [][act'.name = "Restart" => UNCHANGED <<chain, db, dead, ver>>]_vars
 ReadIsNoOp == [][act'.name = "Read" => UNCHANGED <<chain, db, dead, ver>>]_vars
